@@ -211,8 +211,12 @@ def check(case, stats=None):
         return out[:1]
 
     # --- sorted / merged -----------------------------------------------------------------------
+    # (the table of the interval set, contig names encoded against the genome, through the plain sorting function)
+    srt_fn = guard("sort_intervals(genome-encoded)", lambda: rows_of(bnp.arithmetics.sort_intervals(gi.get_data())))
     srt = guard("sorted", lambda: gi.sorted())
     want_sorted = sorted(((c, a, b) for c, a, b, s in ivs), key=lambda t: (names.index(t[0]), t[1], t[2]))
+    if srt_fn is not None and srt_fn != want_sorted:
+        out.append(Failure("C10:sort_intervals-on-the-encoded-table", {"expected": want_sorted, "actual": srt_fn}))
     if srt is not None:
         r = guard("sorted", lambda: rows_of(srt))
         if r is not None and r != want_sorted:
@@ -237,9 +241,12 @@ def check(case, stats=None):
     # --- clip (on a widened copy) / extended_to_size / get_location ------------------------------------------------
     if ivs:
         wide = [(c, a - case["widen"][i % len(case["widen"])][0], b + case["widen"][i % len(case["widen"])][1], s) for i, (c, a, b, s) in enumerate(ivs)]
+        # (and, for the first two chromosomes that have an entry, one interval wholly beyond the end and one wholly before the start)
+        for c in list(dict.fromkeys(c for c, _, _, _ in ivs))[:2]:
+            wide += [(c, sizes[c] + 1, sizes[c] + 3, "+"), (c, -4, -1, "-")]
         cl = guard("clip", lambda: rows_of(bnp.genomic_data.genomic_intervals.GenomicIntervalsFull(
             genome._genome_context.mask_data(mk(wide, False)), genome._genome_context).clip()))
-        want = [(c, max(0, a), min(sizes[c], b)) for c, a, b, s in wide]
+        want = [(c, min(max(0, a), sizes[c]), min(max(0, b), sizes[c])) for c, a, b, s in wide]
         if cl is not None and cl != want:
             out.append(Failure("C10:clip", {"expected": want, "actual": cl}))
         L = case["L"]
